@@ -172,18 +172,26 @@ def _defect(data, g, out):
         for i in range(N):
             states = ref.embed(data[i], dim, tau)
             n_emb = len(states)
-            if ref.on_threshold(states, thr):
-                return None     # <=/< convention not fixed by the property
-            R = ref.recurrence_sup(states, thr, strict=False)
+            tie = ref.on_threshold(states, thr)
+            if tie:
+                # <=/< at a distance equal to the threshold is not fixed by
+                # the property: the neighbourhoods are then the rows of the
+                # class's OWN recurrence plot of these states
+                R = _own_recurrence_plot(states, thr)
+            else:
+                R = ref.recurrence_sup(states, thr, strict=False)
             want = ref.twins_oracle(R, md)
             try:
                 got = [sorted(int(k) for k in t) for t in tw[i]]
             except Exception:   # noqa
                 got = None
             if got != want:
-                return ("twins-value", "row %d: twins differ from the states "
-                        "with identical recurrence rows and |i-j|>%d" % (
-                            i, md), tw[i], want)
+                return ("twins-value" + ("-tie" if tie else ""),
+                        "row %d: twins differ from the states "
+                        "with identical recurrence rows%s and |i-j|>%d" % (
+                            i, " (rows of Surrogates.recurrence_plot, a "
+                            "distance equals the threshold)" if tie else "",
+                            md), tw[i], want)
             first = [float(data[i][k]) for k in range(n_emb)]
             d = ref.walk_defect([float(v) for v in sur[i]], first, want)
             if d:
@@ -194,10 +202,19 @@ def _defect(data, g, out):
     raise ValueError(g)
 
 
+def _own_recurrence_plot(states, thr):
+    from pyunicorn.timeseries import Surrogates
+    return np.asarray(Surrogates.recurrence_plot(
+        np.array(states, dtype=float).reshape(len(states), -1), thr,
+        silence_level=3)).astype(int).tolist()
+
+
 def _key(g, cls, where):
     name = GEN_NAMES[g[0]]
     if g[0] == "twin" and cls == "twins-value":
         return "Surrogates.twins:value"
+    if g[0] == "twin" and cls == "twins-value-tie":
+        return "Surrogates.twins:inconsistent-with-recurrence_plot:tie"
     if g[0] == "rboth" and cls[:2] in ("A|", "S|"):
         # one root cause, one key: filed under the output that is wrong
         name = GEN_NAMES["ramp" if cls[0] == "A" else "rspec"]
@@ -277,13 +294,6 @@ def fam_hist(case):
         1 for g in hist if g[0] == "tts"))
     logs = {}
     snap = ref.unmodelled_snapshot()
-    for g in hist:
-        if g[0] == "twin" and any(
-                ref.on_threshold(ref.embed(row, g[1], g[2]), g[3])
-                for row in data):
-            return {"viol": [], "evals": 0, "trivial": True, "excluded": {
-                "state pair exactly at the recurrence threshold (<=/< "
-                "convention not fixed by the property)": 1}}
 
     def run_fn(cr):
         log = []
@@ -556,10 +566,11 @@ def fam_scale_twin(case):
     desc = "series %s(n=%d) dim=%d tau=%d threshold=%s min_dist=%d" % (
         name, n, dim, tau, thr, md)
     R_or, on = ref.recurrence_sup_np(S, thr, strict=(which == "rp"))
-    if on:
-        return {"viol": [], "evals": 0, "trivial": True, "excluded": {
-            "state pair exactly at the recurrence threshold (<=/< "
-            "convention not fixed by the property)": 1}}
+    if on and which != "rp":
+        # tie at the threshold: neighbourhoods = rows of the class's own
+        # recurrence plot (the rp variant always uses the library's R)
+        R_or = np.asarray(_own_recurrence_plot(S.tolist(), thr),
+                          dtype=np.int8)
     want_sur = ref.twins_np(R_or, md)
     stats = {"states_with_128_or_more_neighbours":
              int((R_or.sum(axis=1) >= 128).sum()),
